@@ -2,6 +2,7 @@
 from __future__ import annotations
 
 import ast
+import re
 import textwrap
 
 from .. import absint as A
@@ -66,8 +67,9 @@ def run(repo, rep, tier):
     # the capture variables of i18n:name blocks are named after the mangled
     # block name: two names of one translation must not share a variable
     # (C09 owns the rule about the key function)
-    from . import c09
-    L.borrow(repo, rep, "R10.4", "C09", c09._keys, ("slot-key-injective",))
+    # -- decided by _names (name-key-injective): either the blocks carry an
+    # ordinal of their own in the variable name, or the key function itself
+    # has to be injective (the C09 obligation, borrowed there)
     L.state_rule(repo, rep)
 
 
@@ -803,8 +805,48 @@ def _names(repo, rep):
     rep.check(any("Duplicate translation name" in r for r in raises),
               "R10.4", site, "a duplicate i18n:name in one translation is "
               "rejected", construct="duplicate-name", where=wh)
-    adds = [i for i, (it, c) in enumerate(tr) if isinstance(it, A.Effect)
-            and it.kind == "add" and "_translations" in it.target]
+    def registers(it):
+        # set.add(name) on, or a keyed store of the name into, the enclosing
+        # translation's collection (possibly through a local alias of it)
+        if not isinstance(it, A.Effect):
+            return False
+        if it.kind == "add" and "_translations" in it.target:
+            return True
+        if it.kind == "setitem":
+            obj = A.show(it.obj, limit=6) if it.obj is not None else it.target
+            key = A.show(it.arg.items[0], limit=4) \
+                if isinstance(it.arg, A.Tup) and it.arg.items else ""
+            return "self._translations" in obj and "node.name" in key
+        return False
+    adds = [i for i, (it, c) in enumerate(tr) if registers(it)]
+    # two block names of one translation never share a capture variable:
+    # identifier() mangles its suffix ('a-b' and 'a_b' read the same), so the
+    # suffix has to lead with something that is unique per registered name --
+    # the ordinal stored at registration (len() of the collection before the
+    # store: the collection only grows, duplicates are rejected above) --
+    # or else the key function itself has to be injective
+    coll = "getitem(self._translations, `-1`)"
+    sfx = tc.args[2].suffix if isinstance(tc.args[2], A.Ident) else None
+    by_ordinal = False
+    if isinstance(sfx, A.Fmt) and isinstance(sfx.fmt, str) and \
+            re.match(r"^%d[_.]", sfx.fmt) and sfx.args:
+        first = A.show(sfx.args[0], limit=8)
+        stored = [A.show(it.arg.items[1], limit=8) for it, c in tr
+                  if registers(it) and it.kind == "setitem"
+                  and isinstance(it.arg, A.Tup) and len(it.arg.items) == 2]
+        by_ordinal = first == "getitem(%s, node.name)" % coll and \
+            stored == ["len(%s)" % coll]
+    if by_ordinal:
+        rep.check(True, "R10.4", site, "two block names of one translation "
+                  "never share a capture variable: the variable's name leads "
+                  "with the ordinal the name was registered under (the "
+                  "collection's length before the store)",
+                  construct="name-key-injective", where=wh,
+                  detail=A.show(sfx, limit=8)[:120])
+    else:
+        from . import c09
+        L.borrow(repo, rep, "R10.4", "C09", c09._keys,
+                 ("slot-key-injective",))
     child = [i for i, (it, c) in enumerate(tr) if isinstance(it, A.Child)]
     rep.check(adds and child and adds[0] < child[0], "R10.4", site,
               "the name is registered with the enclosing translation before "
